@@ -1228,3 +1228,40 @@ Proof.
     rewrite E1. apply Hback.
     rewrite (exec1_net _ _ _ _ E1). cbn [net1]. rewrite Hc. revert G1 G2. eqb_cases; lia.
 Qed.
+
+(** * The message level adds nothing to PlaceBid: what MsgPlaceBid.ValidateBasic
+      refuses (auction id zero, negative amount) the keeper refuses as well *)
+
+Lemma bid_routine_negative e t a bidder d x parts :
+  auc_ok e a -> x < 0 -> bid_routine e t a bidder d x parts = Err.
+Proof.
+  intros OK X. destruct OK. unfold bid_routine.
+  destruct (a_kind a) eqn:K.
+  - unfold bid_surplus. destruct (negb (Nat.eqb d (a_bid_d a))); [reflexivity|].
+    pose proof (min_inc_pos (inc_s e) (a_bid a)).
+    destruct (Z.ltb_spec x (a_bid a + min_inc (inc_s e) (a_bid a))); [reflexivity|lia].
+  - unfold bid_debt. destruct (negb (Nat.eqb d (a_lot_d a))); [reflexivity|].
+    destruct (a_lot a - min_inc (inc_d e) (a_lot a) <? x); [reflexivity|].
+    destruct (Z.ltb_spec x 0); [reflexivity|lia].
+  - destruct (is_reverse a).
+    + unfold bid_coll_rev. destruct (negb (Nat.eqb d (a_lot_d a))); [reflexivity|].
+      destruct (a_lot a - min_inc (inc_c e) (a_lot a) <? x); [reflexivity|].
+      destruct (Z.ltb_spec x 0); [reflexivity|lia].
+    + unfold bid_coll_fwd. destruct (negb (Nat.eqb d (a_bid_d a))); [reflexivity|].
+      pose proof (min_inc_pos (inc_c e) (a_bid a)).
+      destruct (Z.ltb_spec x (Z.min (a_bid a + min_inc (inc_c e) (a_bid a)) (a_maxbid a))); [reflexivity|].
+      exfalso. destruct (ok_coll0 eq_refl) as (C & _). lia.
+Qed.
+
+Lemma msg_place_bid_is_place_bid e s t id bidder d x parts :
+  Inv e s -> afind 0 (aucs s) = None ->
+  msg_place_bid e s t id bidder d x parts = place_bid e s t id bidder d x parts.
+Proof.
+  intros I Z0. unfold msg_place_bid, bid_validate_basic.
+  destruct (Z.eqb_spec id 0) as [->|NZ]; cbn [negb andb].
+  - unfold place_bid. rewrite Z0. reflexivity.
+  - destruct (Z.leb_spec 0 x) as [P|N]; [reflexivity|].
+    unfold place_bid. destruct (afind id (aucs s)) as [a|] eqn:F; [|reflexivity].
+    destruct (a_end a <? t); [reflexivity|].
+    rewrite (bid_routine_negative e t a bidder d x parts (Inv_auc_ok e s id a I F) N). reflexivity.
+Qed.
